@@ -321,7 +321,7 @@ def index_after_analyses(ctx):
     aux = Grid.from_positions([20.0, 21.0, 22.0], [1.0, 2.0, 3.0, 4.0])
     L = Layout({"traps": traps, "aux": aux, "fz": FilledGrid.vacate(Grid.from_positions([50.0, 51.0], [0.0, 1.0]), [(0, 0)])}, {"traps"}, {"traps"}, {"aux"},
                special_grid={"park": Grid.from_positions([-4.0, -2.0], [0.5, 1.5])})
-    S = ArchSpec(layout=L)
+    S = ArchSpec(layout=L, float_constants={"pitch": 2.5, "origin": 0.0}, int_constants={"rows": 3, "code_size": 7, "zero": 0})
     # "that grid": the same sites in the same order, filled or not alike, the same vacancies (a complete view of a zone IS that grid)
     same = lambda a, b: hasattr(a, "vacancies") == hasattr(b, "vacancies") and tuple(a.shape) == tuple(b.shape) and list(a.positions) == list(b.positions) \
         and sorted(getattr(a, "vacancies", ())) == sorted(getattr(b, "vacancies", ()))
@@ -350,10 +350,11 @@ def index_after_analyses(ctx):
                       "fillable": sorted(L.fillable), "has_cz": sorted(L.has_cz), "has_local": sorted(L.has_local),
                       "floats": sorted(S.float_constants.items()), "ints": sorted(S.int_constants.items())}
     tables_before, hash_before = tables(), hash(S)
-    twin = ArchSpec(layout=Layout(dict(L.static_traps), set(L.fillable), set(L.has_cz), set(L.has_local), special_grid=dict(L.special_grid)))
+    twin = ArchSpec(layout=Layout(dict(L.static_traps), set(L.fillable), set(L.has_cz), set(L.has_local), special_grid=dict(L.special_grid)),
+                    float_constants={"pitch": 2.5, "origin": 0.0}, int_constants={"rows": 3, "code_size": 7, "zero": 0})
     src = ('@move{DEC}\ndef main(c: bool):\n    z = spec.get_static_trap(zone_id="traps")\n    a = filled.vacate(z, [(0, 0)])\n    b = filled.vacate(spec.get_static_trap(zone_id="aux"), [(1, 1), (2, 3)])\n'
            '    f = spec.get_static_trap(zone_id="fz")\n    p = filled.get_parent(f)\n    v = z[0:2, 0:2]\n    w = grid.shift(z, 1.0, 0.0)\n'
-           '    gate.local_rz(0.5, a)\n    gate.local_rz(0.5, b)\n    gate.local_rz(0.5, p)\n    gate.local_rz(0.5, v)\n    gate.local_rz(0.5, w)\n    gate.local_rz(0.5, filled.vacate(f, [(1, 1)]))\n    k = spec.get_special_grid(grid_id="park")\n    gate.local_rz(0.5, k)\n    gate.local_rz(0.5, k[0:1, :])\n')
+           '    gate.local_rz(0.5, a)\n    gate.local_rz(0.5, b)\n    gate.local_rz(0.5, p)\n    gate.local_rz(0.5, v)\n    gate.local_rz(0.5, w)\n    gate.local_rz(0.5, filled.vacate(f, [(1, 1)]))\n    k = spec.get_special_grid(grid_id="park")\n    gate.global_rz(spec.get_float_constant(constant_id="pitch") * spec.get_int_constant(constant_id="code_size"))\n    gate.local_rz(0.5, k)\n    gate.local_rz(0.5, k[0:1, :])\n')
     try:
         for dec in ("", "(arch_spec=S)", "(arch_spec=S, aggressive=True)"):
             m = kernels.define(src.replace("{DEC}", dec), S=S)["main"]
